@@ -931,6 +931,135 @@ def g5_cfg(mod_toks, rt_toks, files=None):
 HEADER = "(* GENERATED by translator/rs2v.py from %s -- do not edit *)\n"
 
 
+
+# ---------------------------------------------------------------- G6: names (C19)
+def strip_attr_items(toks, pred):
+    """remove items annotated with an attribute #[...] for which pred(attr tokens) holds"""
+    out, removed, i = [], [], 0
+    while i < len(toks):
+        if toks[i] == ("op", "#") and i + 1 < len(toks) and toks[i + 1] == ("op", "["):
+            j = matching(toks, i + 1, "[", "]")
+            attr = toks[i + 2:j]
+            if pred(attr):
+                k = j + 1
+                while toks[k] == ("op", "#"):
+                    k = matching(toks, k + 1, "[", "]") + 1
+                start, depth = k, 0
+                while True:
+                    v = toks[k][1]
+                    if v in "([":
+                        depth += 1
+                    elif v in ")]":
+                        depth -= 1
+                    elif v == ";" and depth == 0:
+                        k += 1
+                        break
+                    elif v == "{" and depth == 0:
+                        k = matching(toks, k, "{", "}") + 1
+                        break
+                    k += 1
+                removed.append(toks[start:k])
+                i = k
+                continue
+        out.append(toks[i])
+        i += 1
+    return out, removed
+
+
+def coq_str(s):
+    return '"' + s.replace('"', '""') + '"'
+
+
+def coq_list(xs):
+    return "[" + "; ".join(xs) + "]"
+
+
+def g6_names(repo):
+    """per source file: the roots of all paths, the names brought in by `use`, macros invoked, method names,
+       all identifiers; crate level: no_std attribute, extern crates, items defined, items gated on feature std"""
+    src = os.path.join(repo, "src")
+    rels = []
+    for root, _, fs in os.walk(src):
+        for f in fs:
+            if f.endswith(".rs"):
+                rels.append(os.path.relpath(os.path.join(root, f), repo))
+    rels.sort()
+    defined, std_gated, externs, files = set(), [], [], []
+    no_std = False
+    for rel in rels:
+        with open(os.path.join(repo, rel)) as f:
+            toks = lex(f.read())
+        if rel == "src/lib.rs":
+            pat = [("op", "#"), ("op", "!"), ("op", "["), ("ident", "cfg_attr"), ("op", "("), ("ident", "not"), ("op", "("),
+                   ("ident", "feature"), ("op", "="), ("str", '"std"'), ("op", ")"), ("op", ","), ("ident", "no_std"),
+                   ("op", ")"), ("op", "]")]
+            no_std = any(toks[i:i + len(pat)] == pat for i in range(len(toks)))
+        toks, _ = strip_attr_items(toks, lambda a: a[:1] == [("ident", "test")] or
+                                   (a[:1] == [("ident", "cfg")] and ("ident", "test") in a))
+        toks, gated = strip_attr_items(toks, lambda a: a[:1] == [("ident", "cfg")] and ("str", '"std"') in a)
+        for g in gated:
+            std_gated.append((rel, norm(g)))
+        roots, stdpaths, imports, macros, methods, idents = set(), set(), set(), set(), set(), set()
+        i = 0
+        while i < len(toks):
+            k, v = toks[i]
+            if k == "ident":
+                idents.add(v.rstrip("!"))
+                if v.endswith("!"):
+                    macros.add(v[:-1])
+                if v in ("struct", "enum", "fn", "mod", "trait", "type", "const", "static", "union") and \
+                        i + 1 < len(toks) and toks[i + 1][0] == "ident" and \
+                        toks[i + 1][1] not in ("fn", "unsafe", "mut", "_") and (i == 0 or toks[i - 1] != ("op", "*")):
+                    defined.add(toks[i + 1][1])
+                if v == "macro_rules!" and i + 1 < len(toks) and toks[i + 1][0] == "ident":
+                    defined.add(toks[i + 1][1])
+                if v == "extern" and toks[i + 1] == ("ident", "crate"):
+                    externs.append(toks[i + 2][1])
+                if v == "use":
+                    j = i + 1
+                    while toks[j] != ("op", ";"):
+                        j += 1
+                    body = toks[i + 1:j]
+                    root = body[0][1]
+                    # every identifier that ends a path segment list or follows `as` is brought into scope
+                    for q, (kk, vv) in enumerate(body):
+                        if kk == "ident" and vv != "as" and (q + 1 == len(body) or body[q + 1][1] in (",", "}")):
+                            imports.add((root, vv))
+                    if body[-1] == ("op", "*"):
+                        imports.add((root, "".join(vv for _, vv in body)))
+                if i + 1 < len(toks) and toks[i + 1] == ("op", "::") and \
+                        (i == 0 or toks[i - 1] not in (("op", "::"), ("op", "."))):
+                    j, segs = i, [v]
+                    while j + 2 < len(toks) and toks[j + 1] == ("op", "::") and toks[j + 2][0] == "ident":
+                        segs.append(toks[j + 2][1])
+                        j += 2
+                    roots.add(v)
+                    if v in ("std", "alloc"):
+                        stdpaths.add("::".join(segs))
+                if i > 0 and toks[i - 1] == ("op", ".") and i + 1 < len(toks) and \
+                        (toks[i + 1] == ("op", "(") or toks[i + 1] == ("op", "::")):
+                    methods.add(v)
+            i += 1
+        files.append((rel, sorted(roots), sorted(stdpaths), sorted(imports), sorted(macros), sorted(methods), sorted(idents)))
+    out = []
+    out.append("Definition crate_no_std_attr : bool := %s." % ("true" if no_std else "false"))
+    out.append("Definition crate_extern_crates : list string := %s." % coq_list(coq_str(x) for x in externs))
+    out.append("Definition crate_defined : list string :=\n  %s." % coq_list(coq_str(x) for x in sorted(defined)))
+    out.append("Definition crate_std_gated : list (string * string) :=\n  %s." %
+               coq_list("(%s, %s)" % (coq_str(a), coq_str(b)) for a, b in std_gated))
+    out.append("Record file_names := { fn_path : string; fn_roots : list string; fn_std_paths : list string;\n"
+               "  fn_imports : list (string * string); fn_macros : list string; fn_methods : list string; fn_idents : list string }.")
+    items = []
+    for rel, roots, stdp, imps, macs, meths, ids in files:
+        items.append("  {| fn_path := %s;\n     fn_roots := %s;\n     fn_std_paths := %s;\n     fn_imports := %s;\n"
+                     "     fn_macros := %s;\n     fn_methods := %s;\n     fn_idents := %s |}" %
+                     (coq_str(rel), coq_list(map(coq_str, roots)), coq_list(map(coq_str, stdp)),
+                      coq_list("(%s, %s)" % (coq_str(a), coq_str(b)) for a, b in imps),
+                      coq_list(map(coq_str, macs)), coq_list(map(coq_str, meths)), coq_list(map(coq_str, ids))))
+    out.append("Definition crate_files : list file_names :=\n [\n" + ";\n".join(items) + " ].")
+    return "\n\n".join(out) + "\n"
+
+
 def write_if_changed(path, text):
     old = None
     if os.path.exists(path):
@@ -1006,6 +1135,13 @@ def main():
     gen("Avx2.v", avx2)
     gen("Neon.v", neon)
     gen("Cfg.v", cfg)
+
+    def names():
+        return (HEADER % "src/**/*.rs (names, imports, macros, methods, std-gated items)" +
+                "From Coq Require Import List String.\nImport ListNotations.\nLocal Open Scope string_scope.\n\n" +
+                g6_names(repo))
+
+    gen("Names.v", names)
     changed = []
     for name, text in files.items():
         if write_if_changed(os.path.join(outdir, name), text):
